@@ -78,6 +78,10 @@ pub enum InfoFile {
     Random(crate::case::Hex),
     Missing,
     Directory,
+    /// a library-written file laid out so that a top-level box header starts `back` bytes (1..=7) before a
+    /// multiple of a read-buffer size: `fast_start` false = ftyp, mdat, moov (frame size chosen), true = ftyp,
+    /// moov, mdat (title length chosen)
+    Boundary { boundary: u32, back: u8, fast_start: bool },
 }
 
 #[derive(Clone, Debug, Serialize, Deserialize)]
@@ -394,8 +398,10 @@ pub fn gen(rng: &mut Rng, scenario: &str) -> CliCase {
                     }
                     InfoFile::Random(Hex(d))
                 }
-                8 => InfoFile::Missing,
-                _ => InfoFile::Directory,
+                8 if rng.bool() => InfoFile::Missing,
+                8 => InfoFile::Boundary { boundary: *rng.pick(&[4096u32, 8192, 8192, 8192, 16384, 65536]), back: rng.range(1, 7) as u8, fast_start: rng.bool() },
+                _ if rng.bool() => InfoFile::Directory,
+                _ => InfoFile::Boundary { boundary: *rng.pick(&[4096u32, 8192, 8192, 8192, 16384, 65536]), back: rng.range(0, 9) as u8, fast_start: rng.bool() },
             };
             CliCmd::Info { file }
         }
@@ -953,6 +959,49 @@ fn eval_in(c: &CliCase, st: &mut RunStats, dir: &Path, out: &mut Vec<Violation>)
                     ah.str("directory");
                     *st.fired.entry("input_is_directory(EISDIR)").or_insert(0) += 1;
                 }
+                InfoFile::Boundary { boundary, back, fast_start } => {
+                    // one VP9 key frame (stored unchanged); the knob is its length (moov last) or the title length (moov first)
+                    let target = *boundary as i64 - *back as i64;
+                    let build = |knob: usize| -> Vec<u8> {
+                        let mut r = crate::rng::Rng::new(0x626f756e64);
+                        let f = crate::frames::build_vp9(&mut r, crate::frames::FrameShape::KeyWithConfig, 7, if *fast_start { 40 } else { knob }, false);
+                        let pc = ProgCase {
+                            cfg: ProgCfg {
+                                video: Some(VideoCfg { codec: VCodec::Vp9, width: 640, height: 480, fps: F(30.0), alias: false }),
+                                audio: None,
+                                video_prior: None,
+                                audio_prior: None,
+                                fast_start: Some(*fast_start),
+                                meta: if *fast_start { Some(MetaCfg { title: Some("t".repeat(knob.max(1))), ctime: None, lang: None, style: 0 }) } else { None },
+                                sink: SinkKind::VecU8,
+                            },
+                            ops: vec![Op::Video { pts: F(0.0), data: Hex(f.data), key: true, cc: true }, Op::Finish(FinishKind::InPlace)],
+                            faults: FaultPlan::default(),
+                        };
+                        exec::run_prog(&pc).sink.bytes
+                    };
+                    let third = |b: &[u8]| -> Option<i64> { crate::reader::parse_tree(b).ok().and_then(|t| t.get(2).map(|n| n.start as i64)) };
+                    let mut knob = 64usize;
+                    let mut b = build(knob);
+                    for _ in 0..3 {
+                        if let Some(s0) = third(&b) {
+                            let want = knob as i64 + (target - s0);
+                            if want < 1 {
+                                break;
+                            }
+                            knob = want as usize;
+                            b = build(knob);
+                        }
+                    }
+                    if third(&b) == Some(target) {
+                        *st.fired.entry("info_box_header_at_buffer_boundary").or_insert(0) += 1;
+                    }
+                    if b.len() >= 8 {
+                        expect_boxes = well_formed(&b);
+                    }
+                    std::fs::write(&p, &b)?;
+                    ah.str("boundary");
+                }
             }
             ah.u64(c.json as u64);
             let argv = c.argv(dir);
@@ -991,9 +1040,14 @@ fn eval_in(c: &CliCase, st: &mut RunStats, dir: &Path, out: &mut Vec<Violation>)
                         None
                     }
                 };
+                // a listing in a form this harness does not know is not judged (the output format is not part of the
+                // property), as long as the command succeeded; one that is found must be exact
                 let ok = match &got {
                     Some(g) => g.len() == want.len() && g.iter().zip(want.iter()).all(|(a, b)| a.0 == b.0 && a.1 == b.1 && a.2.map(|o| o == b.2).unwrap_or(true)),
-                    None => false,
+                    None => {
+                        st.count("info_listing_not_located", 1);
+                        child.code == Some(0)
+                    }
                 };
                 if child.code != Some(0) || !ok {
                     out.push(v("C20", "info-box-list", if c.json { "json" } else { "text" }, format!("info (exit {:?}) listed {:?} for a well-formed file whose top-level boxes are {:?}", child.code, got, want)));
